@@ -14,6 +14,8 @@ claimed={
  "C10":("whole stack (real parser, DefaultServer.Loop, orcas, real std handlers, binary backend protocol) over in-process memcached models with one injected backend fault (10 error statuses; connection closed before / after / inside a reply) at a symbolic request index on L1 or L2: termination, no crash, only complete frames to the client, connections closed, second client served, value read back is old / new / miss and never old after an acknowledged write or delete","§C10","symbolic execution of the whole stack + SMT, fault position/kind as environment choices"),
  "C11":("whole binary header space (2^8 opcodes x 2^16 key x 2^8 extras x 2^32 total) through the real parser and server loop with an allocation log; arbitrary text command lines","§C11","symbolic execution + SMT, allocation-size assertions before concretisation"),
  "C12":("LockedOrca over fault-injecting model handlers: fault position/kind symbolic choices, lock discipline observed through instrumented lockers; sequential part","§C12","symbolic execution + SMT with enumerated fault positions"),
+ "C14":("pool discipline under a havoc-on-release model of sync.Pool (whole stack, wire level, chunked handler) with double-Put detection; one handler instance per client connection in the real ListenAndServe even when a client's first byte arrives late; two lock-free connections on different keys under every interleaving at backend calls","§C14","symbolic execution + SMT with an adversarial sync.Pool model; bounded schedule exploration"),
+ "C15":("real ListenAndServe over a fake listener: a client stream cut at every byte offset then EOF; at quiescence sockets and backend connections closed, no goroutine or key lock left, a fresh client served","§C15","symbolic execution of accept loop + connection loop, cut offset as environment choice, quiescence assertions"),
  "C16":("chunk arithmetic kernels with symbolic lengths: sizes for all key lengths, FP chunk count per key length, slice indices, reader step induction, metadata of the real set path on an abstract-length value","§C16","symbolic execution + SMT incl. floating-point theory"),
  "C17":("real inmem.Handler vs reference map: one symbolic command from every 2-key map state; 2 goroutines x 1 command under every interleaving at lock granularity with a lock-discipline monitor on the shared map","§C17","symbolic execution + SMT; exhaustive schedule exploration (bounded) with lock-discipline monitor"),
  "C18":("bit-count routine (amd64 assembly translated, portable body) equals its specification on all 2^64 inputs; bucket index in range, upper bound and monotone for all n <= 2^63-1","§C18","SSA and assembly translated to SMT bit-vectors, Z3"),
@@ -28,9 +30,11 @@ notes={
  "C07":"lengths concrete per run (listed in evidence), contents symbolic; > 2 requests per pipeline and > 1 cut (quick) outside the bound",
  "C08":"model handlers stand for the backends; pipelines of 2; 2 keys; values <= 2 bytes; text flags <= 9 in quick; stats excluded",
  "C09":"orchestrator level with model handlers, plus the real chunked handler over the memcached model (deadline of every backend entry and the metadata Exptime field); batched handler TTL (gete) not yet part of this check",
- "C10":"one fault per run; 1 key, 2-byte values; std handlers (chunked handler faults and batching-pool faults not part of this check); promptness is 'no read that would wait for ever', not wall-clock",
+ "C10":"one known finding (set acknowledged when the L1 write and the compensating L1 delete both fail with an I/O error); one fault per run; 1 key, 2-byte values; std handlers (chunked handler faults and batching-pool faults not part of this check); promptness is 'no read that would wait for ever', not wall-clock",
  "C11":"consistent frames bounded to 23 body bytes, contradictory frames all covered; text lines of 6 (quick) / 9 (thorough) ASCII bytes",
  "C12":"sequential fault positions 0..1 (quick) / 0..3 (thorough); concurrent deadlock-freedom belongs to the schedule exploration of C03",
+ "C14":"claimed in part: data-race freedom under the Go memory model over real schedules is NOT decided (no happens-before model); 2 connections; pools modelled adversarially (arbitrary contents after Put)",
+ "C15":"4 representative request streams (3 text, 1 binary), std handlers; chunked handler and half-open connections outside the bound",
  "C16":"FP detour decided for key lengths {1,5,100,250} (quick) + {2,16,50,150,200,249} (thorough); reader step buffer length <= 8",
  "C17":"TTLs up to 30 days; 2 goroutines x 1 command; boundary second exptime == now left out",
  "C18":"counters and histogram percentiles are not yet part of this check (kernels only)",
